@@ -7,6 +7,7 @@ package main
 import (
 	"fmt"
 	"go/ast"
+	"go/token"
 	"go/types"
 	"sort"
 	"strings"
@@ -196,6 +197,22 @@ func (e *Engine) repairVariants(fn *types.Func, fc *FuncContract) []contractVari
 		cp.Spec = sp
 		vs = append(vs, contractVariant{&cp, fmt.Sprintf("the invariants of the vanished label %s are used at the head of the loop that replaced it", l), "/label_" + l + "/"})
 	}
+	// (c) a loop that is new since the baseline (a tail call turned into iteration): the function's own
+	// preconditions are tried as its invariant
+	if len(fc.Spec.Requires) > 0 && fc.Spec.Loops[-1] == nil {
+		if sp, err := copySpec(fc.Spec, func(t string) string { return t }); err == nil {
+			ls := &LoopSpec{}
+			for _, c := range fc.Spec.Requires {
+				d := *c
+				d.Kind = "invariant"
+				ls.Invariants = append(ls.Invariants, &d)
+			}
+			sp.Loops[-1] = ls
+			cp := *fc
+			cp.Spec = sp
+			vs = append(vs, contractVariant{&cp, "the function's preconditions are used as the invariant of a loop that is new since the baseline", ""})
+		}
+	}
 	// (a) an identifier of the invariants replaced by a local that is new since the baseline, same type
 	base := e.localsBase[funcKey(fn)]
 	if len(base) == 0 {
@@ -310,5 +327,225 @@ func specIdents(text string) []string {
 			i++
 		}
 	}
+	return out
+}
+
+// ---- facts about captured variables that are fixed when a literal is created
+
+// capFact: leaf k of captured variable v equals term, a term over literals, pure functions and leaves of
+// parameters of the enclosing function that are never assigned (named by parameter object and leaf index).
+type capFact struct {
+	v    *types.Var
+	k    int
+	toks []string // the term, tokenised; tokens that are parameter leaves are replaced when the fact is used
+	refs map[int]capRef
+	sort Sort
+}
+
+type capRef struct {
+	p *types.Var
+	k int
+}
+
+// smtTokens splits an SMT term into tokens (parentheses, |quoted symbols|, atoms); whitespace is dropped and
+// re-inserted as single blanks when the term is rebuilt.
+func smtTokens(s string) []string {
+	var out []string
+	i := 0
+	for i < len(s) {
+		c := s[i]
+		switch {
+		case c == ' ' || c == '\n' || c == '\t':
+			i++
+		case c == '(' || c == ')':
+			out = append(out, string(c))
+			i++
+		case c == '|':
+			j := i + 1
+			for j < len(s) && s[j] != '|' {
+				j++
+			}
+			out = append(out, s[i:j+1])
+			i = j + 1
+		case c == '"':
+			j := i + 1
+			for j < len(s) && s[j] != '"' {
+				j++
+			}
+			out = append(out, s[i:j+1])
+			i = j + 1
+		default:
+			j := i
+			for j < len(s) && s[j] != ' ' && s[j] != '(' && s[j] != ')' && s[j] != '\n' {
+				j++
+			}
+			out = append(out, s[i:j])
+			i = j
+		}
+	}
+	return out
+}
+
+func joinSMT(toks []string) string {
+	var b strings.Builder
+	for i, t := range toks {
+		if i > 0 && t != ")" && toks[i-1] != "(" {
+			b.WriteByte(' ')
+		}
+		b.WriteString(t)
+	}
+	return b.String()
+}
+
+var pureSMTOps = map[string]bool{"ite": true, "=": true, "and": true, "or": true, "not": true, "=>": true, "+": true, "-": true,
+	"*": true, "<": true, "<=": true, ">": true, ">=": true, "true": true, "false": true, "distinct": true, "sconcat": true,
+	"slen": true, "ssub": true, "div": true, "mod": true}
+
+// capturedConstFacts: what the function creating the literal knows, at that point, about captured variables that
+// can not change afterwards, expressed over its never-assigned parameters (so that the literal's unit, which has
+// its own symbols for those parameters, can use it).
+func (u *Unit) capturedConstFacts(st *State, lit *ast.FuncLit) []capFact {
+	if len(u.frames) != 1 || u.lit != nil {
+		return nil
+	}
+	fr := u.frames[0]
+	if fr.fn == nil || fr.body == nil {
+		return nil
+	}
+	info := fr.info
+	// variables assigned (or address-taken, inc/dec'd, range-assigned) anywhere, with positions
+	type asg struct{ pos token.Pos }
+	assigned := map[types.Object][]token.Pos{}
+	note := func(e ast.Expr, pos token.Pos) {
+		if id, ok := ast.Unparen(e).(*ast.Ident); ok {
+			if obj := info.ObjectOf(id); obj != nil {
+				assigned[obj] = append(assigned[obj], pos)
+			}
+		}
+	}
+	ast.Inspect(fr.body, func(n ast.Node) bool {
+		switch x := n.(type) {
+		case *ast.AssignStmt:
+			for _, l := range x.Lhs {
+				note(l, x.Pos())
+			}
+		case *ast.IncDecStmt:
+			note(x.X, x.Pos())
+		case *ast.UnaryExpr:
+			if x.Op == token.AND {
+				note(x.X, x.Pos())
+			}
+		case *ast.RangeStmt:
+			if x.Key != nil {
+				note(x.Key, x.Pos())
+			}
+			if x.Value != nil {
+				note(x.Value, x.Pos())
+			}
+		}
+		return true
+	})
+	// leaves of parameters / receiver that are never assigned
+	sig := fr.fn.Type().(*types.Signature)
+	var params []*types.Var
+	if sig.Recv() != nil {
+		params = append(params, sig.Recv())
+	}
+	for i := 0; i < sig.Params().Len(); i++ {
+		params = append(params, sig.Params().At(i))
+	}
+	leafOf := map[string]capRef{}
+	for _, p := range params {
+		if len(assigned[p]) > 0 {
+			continue
+		}
+		pv, ok := st.vars[p]
+		if !ok {
+			continue
+		}
+		for k, t := range pv.L {
+			if !strings.ContainsAny(t.S, " ()") {
+				leafOf[t.S] = capRef{p, k}
+			}
+		}
+	}
+	// the literal inside a loop: variables assigned in that loop are not fixed
+	var enclosing []ast.Node
+	var stack []ast.Node
+	ast.Inspect(fr.body, func(n ast.Node) bool {
+		if n == nil {
+			stack = stack[:len(stack)-1]
+			return true
+		}
+		if n == ast.Node(lit) {
+			for _, s := range stack {
+				switch s.(type) {
+				case *ast.ForStmt, *ast.RangeStmt:
+					enclosing = append(enclosing, s)
+				}
+			}
+			return false
+		}
+		stack = append(stack, n)
+		return true
+	})
+	seen := map[*types.Var]bool{}
+	var out []capFact
+	ast.Inspect(lit.Body, func(n ast.Node) bool {
+		id, ok := n.(*ast.Ident)
+		if !ok {
+			return true
+		}
+		v, ok := info.Uses[id].(*types.Var)
+		if !ok || v.IsField() || seen[v] || v.Pkg() == nil || v.Parent() == v.Pkg().Scope() {
+			return true
+		}
+		if v.Pos() >= lit.Pos() && v.Pos() <= lit.End() {
+			return true
+		}
+		seen[v] = true
+		for _, p := range assigned[v] {
+			if p >= lit.Pos() {
+				return true // assigned in or after the literal
+			}
+			for _, l := range enclosing {
+				if p >= l.Pos() && p <= l.End() {
+					return true
+				}
+			}
+		}
+		val, ok := st.vars[v]
+		if !ok {
+			return true
+		}
+		if _, boxed := st.boxed[v]; boxed {
+			return true
+		}
+		for k, t := range val.L {
+			toks := smtTokens(t.S)
+			refs := map[int]capRef{}
+			good := len(toks) > 0
+			for i, tk := range toks {
+				switch {
+				case tk == "(" || tk == ")" || pureSMTOps[tk]:
+				case strings.HasPrefix(tk, "|str") || strings.HasPrefix(tk, "\""):
+				case strings.HasPrefix(tk, "spec_"):
+				case len(tk) > 0 && (tk[0] >= '0' && tk[0] <= '9'):
+				default:
+					if r, ok := leafOf[tk]; ok {
+						refs[i] = r
+					} else {
+						good = false
+					}
+				}
+			}
+			if good && len(refs) > 0 {
+				out = append(out, capFact{v: v, k: k, toks: toks, refs: refs, sort: t.Sort})
+			} else if good && len(toks) == 1 && (strings.HasPrefix(toks[0], "|str") || (toks[0][0] >= '0' && toks[0][0] <= '9') || toks[0] == "true" || toks[0] == "false") {
+				out = append(out, capFact{v: v, k: k, toks: toks, refs: refs, sort: t.Sort}) // a constant
+			}
+		}
+		return true
+	})
 	return out
 }
